@@ -6,6 +6,7 @@ CONSTANTS
   PatchKinds = {"plain2", "loop", "fwd", "ret", "jmpsym", "callsym"}
   FnLayouts = {"none", "one", "split"}
   EndSyms = {FALSE}
+  NoSyms = {FALSE}
   AnnModes = {"none"}
   WithProxyDel = TRUE
   CfiLayouts = {"none"}
